@@ -108,12 +108,15 @@ var TryKind = Cello(TryKind, Instance(Cmp, TryKind_Cmp));
 struct PlainKind { int64_t domain, code; };
 var PlainKind = Cello(PlainKind);
 static var PlainK11, PlainK12, PlainK21;
-#define NK 26
+/* ... and status codes: Int objects whose values agree in their low 32 bits (a facility in the high half), Strings in prefix relation */
+static var IntK7, IntK7a, IntK7b, IntK7c, StrKa, StrKb;
+#define NK 32
 static int kind_sort(int i) { return i < 21 ? 0 : i < 23 ? 1 : 2; }
 static void run_pairs(void) {
   var K[NK] = { TypeError, ValueError, ClassError, IndexOutOfBoundsError, KeyError, OutOfMemoryError, IOError, FormatError, BusyError,
                 ResourceError, ProgramAbortedError, DivisionByZeroError, IllegalInstructionError, ProgramInterruptedError,
-                SegmentationError, ProgramTerminationError, UserErrA, UserErrB, UserErr, IOErrorRetry, IOKind, TryKindA, TryKindB, PlainK11, PlainK12, PlainK21 };
+                SegmentationError, ProgramTerminationError, UserErrA, UserErrB, UserErr, IOErrorRetry, IOKind, TryKindA, TryKindB, PlainK11, PlainK12, PlainK21,
+                IntK7, IntK7a, IntK7b, IntK7c, StrKa, StrKb };
   for (int fi = 0; fi < NK; fi++) for (int ti = 0; ti < NK; ti++) {
     /* kinds of different sorts meet as well: a type object as filter and a value object in flight (or the other way round) are
        simply different kinds - deciding that must not itself raise */
@@ -138,6 +141,8 @@ int main(int argc, char** argv) {
   PlainK11 = alloc_root(PlainKind); PlainK12 = alloc_root(PlainKind); PlainK21 = alloc_root(PlainKind);
   ((struct PlainKind*)PlainK11)->domain = 1; ((struct PlainKind*)PlainK11)->code = 1; ((struct PlainKind*)PlainK12)->domain = 1; ((struct PlainKind*)PlainK12)->code = 2;
   ((struct PlainKind*)PlainK21)->domain = 2; ((struct PlainKind*)PlainK21)->code = 1;
+  IntK7 = new_root(Int, $I(7)); IntK7a = new_root(Int, $I((1LL << 32) | 7)); IntK7b = new_root(Int, $I(7 - (1LL << 32))); IntK7c = new_root(Int, $I((1LL << 31) + 7));
+  StrKa = new_root(String, $S("disk")); StrKb = new_root(String, $S("disk-full"));
   TryKindA = new_root(TryKind); ((struct TryKind*)TryKindA)->id = 1; TryKindB = new_root(TryKind); ((struct TryKind*)TryKindB)->id = 2;
   FILE* f = fopen(argv[1], "r"); if (!f) { perror(argv[1]); return 9; }
   if (argc > 2) { ev_fd = open(argv[2], O_WRONLY | O_CREAT | O_TRUNC | O_APPEND, 0644); if (ev_fd < 0) { perror(argv[2]); return 9; } }
